@@ -53,6 +53,16 @@ def gen_ops(rng, tier):
     for a, b, c, d in itertools.product(R, R, R, R):
         sig = "slice-range-negative-inner-bound" if (c < 0 or d < 0) else None
         ops.append(("srange %d %d %d %d" % (a, b, c, d), s_srange(a, b, c, d), sig))
+    # compositions near the ends of the int range: the composed bound is base ± inner, which does not fit an int when the base sits
+    # near INT_MAX / INT_MIN (the denotation is over the integers; before repo fix the sum wrapped and passed the far-end test)
+    IMAX, IMIN = 2147483647, -2147483648
+    for (a, b) in [(2000000000, IMAX), (IMAX - 5, IMAX), (IMAX, IMAX - 5), (IMIN, IMIN + 5), (IMIN + 5, IMIN), (-2000000000, IMIN), (IMIN, IMAX), (IMAX, IMIN), (0, IMAX), (IMAX, 0)]:
+        n = rng_len(a, b)
+        for c in sorted({0, 1, 4, 5, 6, n - 1, n, n + 1, 147483646, 147483647, 147483648, IMAX - 1, IMAX}):
+            for d in sorted({0, 5, 6, n - 1, n, 147483648, IMAX}):
+                if c < 0 or d < 0 or c > IMAX or d > IMAX:      # inner bounds are ints themselves
+                    continue
+                ops.append(("srange %d %d %d %d" % (a, b, c, d), s_srange(a, b, c, d), None))
     # slices of arrays: ranges inside the array, indices around the slice length
     for ext in range(1, 5):
         for f in range(0, ext):
